@@ -286,4 +286,4 @@ for _name, _h in sorted(INDEX.items()):
       if _p in PROPS:
         _e = EXPECTED.get(_name, {})
         PROPS[_p]["kani"].append(dict(name=_name, tier=_h["tier"], kind=_h["kind"], bound=_h["bound"], expect=_h.get("expect"),
-                                              obligations=_e.get("obligations", []), covers=_e.get("covers", [])))
+                                              obligations=_e.get("obligations", []), covers=_e.get("covers")))
